@@ -16,7 +16,7 @@ func init() { lib.Register("C18", run) }
 
 const (
 	quickTrees    = 64000
-	thoroughTrees = 9600000
+	thoroughTrees = 8000000
 )
 
 var exclusions = []string{
@@ -173,9 +173,15 @@ const knownStripSig = "value-mismatch:strip-marker-stops-at-line-break"
 // stripDefect: does the observed value equal what a "strip only within the adjacent source
 // line" evaluator would produce? Used only to give that known deviation its own signature.
 func stripDefect(root *Node, env map[string]Val, out realOut) bool {
-	if out.Kind != "value" {
-		return false
-	}
+	return stripClass(root, env, out) == "explained"
+}
+
+// stripClass: "" = the tree has no heredoc/bare template with strip markers, or the defect
+// model evaluates to the reference value (the known deviation cannot be the cause);
+// "explained" = the observed value is what the defect model gives; "unclassifiable" = the
+// defect model gives another value than the reference but cannot be evaluated to the end
+// or the real evaluator reports an error; "other" = the defect model gives a third value.
+func stripClass(root *Node, env map[string]Val, out realOut) string {
 	multi := false
 	root.walk(func(n *Node, _ int) {
 		if n.K == NTemplate && n.Form != TQuoted && strings.Contains(tplFeatures(n), "+strip") {
@@ -183,10 +189,23 @@ func stripDefect(root *Node, env map[string]Val, out realOut) bool {
 		}
 	}, 0)
 	if !multi {
-		return false
+		return ""
 	}
 	alt, err, oodWhy, _ := runRef(root, env, true)
-	return oodWhy == "" && err == nil && sameResult(alt, *out.Val)
+	if oodWhy != "" {
+		return "unclassifiable"
+	}
+	ref, rerr, _, _ := runRef(root, env, false)
+	if (err == nil) == (rerr == nil) && (err != nil || sameResult(alt, ref)) {
+		return "" // the deviation does not change this tree's outcome
+	}
+	if out.Kind != "value" || err != nil {
+		return "unclassifiable"
+	}
+	if sameResult(alt, *out.Val) {
+		return "explained"
+	}
+	return "other"
 }
 
 func signatureOf(root *Node, env map[string]Val, v verdict) string {
@@ -267,7 +286,14 @@ const (
 
 func (r *reporter) report(c *lib.Ctx, root *Node, mode string, env map[string]Val, ctx *hcl.EvalContext, v verdict, faultKind string, noiseSeed int64) {
 	orig := v.src[v.bad]
-	wantStrip := v.class == "value-mismatch" && stripDefect(root, env, v.out[v.bad])
+	sc := stripClass(root, env, v.out[v.bad])
+	if sc == "unclassifiable" {
+		// the tree is touched by the known strip deviation, but its effect on this outcome
+		// cannot be computed: neither a pass nor a new failure
+		c.Inconclusive("disagreement on a tree affected by the known strip-marker deviation whose effect cannot be modelled: " + orig)
+		return
+	}
+	wantStrip := v.class == "value-mismatch" && sc == "explained"
 	coarse := v.class + "/" + sigKind(root)
 	if wantStrip {
 		coarse = knownStripSig
